@@ -19,7 +19,7 @@ import (
 const rule = "case = a valid route set (1..8 routes over a shared segment pool, random order, 1..2 methods) plus 1..12 requests, 80% built from an instance of a registered route and mutated; " +
 	"each request is matched by route.Tree.Match and served through Flame.ServeHTTP and compared with the reference matcher (flat route list, documented priority) and with a priority-free brute force for the iff. " +
 	"non-trivial = a case with a request admitted by >=2 route forms, or decided after the reference matcher abandoned an admitting alternative, or with a mid-route match-all spanning >=2 segments, or won by the short form of an optional route; distinct by case text. " +
-	"small-scope part: every ordered set of <=3 compatible routes from a fixed pool of 12 x every path of <=4 segments over 5 values"
+	"metamorphic part (no reference matcher): adding an unrelated route, swapping adjacent registrations of different rank, registering routes for another method and extra leading slashes change no outcome. small-scope part: every ordered set of <=3 compatible routes from a fixed pool of 12 x every path of <=4 segments over 5 values"
 
 var assumptions = []string{
 	"route sets contain only registrations the registration model classifies MUST_ACCEPT (C08 decides registration itself)",
@@ -191,6 +191,158 @@ func TestWide(t *testing.T) {
 	})
 }
 
+// ---- metamorphic relations (no reference matcher involved) ---------------------
+//
+// They guard against a misconception shared by the reference matcher and the
+// implementation: each relation follows from the statement alone.
+//
+//   M1  adding a route whose first segment is a fresh static literal leaves the
+//       outcome of every path that does not start with that literal unchanged;
+//   M2  swapping two ADJACENT registrations whose segment kinds differ at the
+//       first segment where their texts differ changes no outcome (rank decides
+//       before registration order does);
+//   M3  registering routes for another method changes no outcome;
+//   M4  extra leading slashes change no outcome.
+
+type MetaCase struct {
+	Regs  []rt.Reg `json:"routes"`
+	Reqs  []rt.Req `json:"requests"`
+	Swap  int      `json:"swap"`  // M2: swap registrations Swap and Swap+1 when allowed
+	Extra rt.Reg   `json:"extra"` // M1: the unrelated route
+	Other []rt.Reg `json:"other"` // M3: routes registered for POST
+}
+
+func outcomes(regs []rt.Reg, reqs []rt.Req) ([]string, bool) {
+	trees, _, _, err := rt.Trees(regs)
+	if err != nil {
+		return nil, false
+	}
+	var out []string
+	for _, q := range reqs {
+		tree := trees[q.M]
+		o := "not-found"
+		if tree != nil {
+			if leaf, _, ok := tree.Match(q.P, nil); ok {
+				o = leaf.Route()
+			}
+		}
+		out = append(out, o)
+	}
+	return out, true
+}
+
+func firstDifferingKinds(a, b model.Route) (model.Kind, model.Kind, bool) {
+	for i := 0; i < len(a.Segs) && i < len(b.Segs); i++ {
+		if a.Segs[i].Canon() != b.Segs[i].Canon() {
+			ka, _, _ := a.Segs[i].Classify()
+			kb, _, _ := b.Segs[i].Classify()
+			// a final optional segment also contributes a shorter form: keep clear of it
+			if a.Segs[i].Optional || b.Segs[i].Optional {
+				return 0, 0, false
+			}
+			return ka, kb, true
+		}
+	}
+	return 0, 0, false
+}
+
+func checkMeta(c MetaCase) (out evid.Outcome) {
+	base, ok := outcomes(c.Regs, c.Reqs)
+	if !ok {
+		out.Excluded = 1
+		return out
+	}
+	out.Sub = len(c.Reqs)
+	cmp := func(rel string, regs []rt.Reg, reqs []rt.Req) evid.Outcome {
+		got, ok := outcomes(regs, reqs)
+		if !ok {
+			return evid.Outcome{}
+		}
+		for i := range got {
+			if got[i] != base[i] {
+				return evid.Fail("meta-"+rel, "relation %s: %s %q goes to %q with routes %s but to %q with routes %s", rel, c.Reqs[i].M, c.Reqs[i].P, base[i], show(c.Regs), got[i], show(regs))
+			}
+		}
+		return evid.Outcome{}
+	}
+	// M1
+	if c.Extra.R != "" {
+		lit := rt.Deriv(c.Extra.R).Segs[0].Elems[0].Lit
+		var reqs []rt.Req
+		var keep []int
+		for i, q := range c.Reqs {
+			if segs := model.SplitPath(q.P); segs[0] != lit {
+				reqs = append(reqs, q)
+				keep = append(keep, i)
+			}
+		}
+		regs := append(append([]rt.Reg(nil), c.Regs...), c.Extra)
+		if got, ok := outcomes(regs, reqs); ok {
+			for j, i := range keep {
+				if got[j] != base[i] {
+					return evid.Fail("meta-M1", "adding the unrelated route %q changes %s %q from %q to %q; routes %s", c.Extra.R, c.Reqs[i].M, c.Reqs[i].P, base[i], got[j], show(c.Regs))
+				}
+			}
+			out.Classes = append(out.Classes, "M1")
+		}
+	}
+	// M2
+	if c.Swap >= 0 && c.Swap+1 < len(c.Regs) && c.Regs[c.Swap].M == c.Regs[c.Swap+1].M {
+		a, b := rt.Deriv(c.Regs[c.Swap].R), rt.Deriv(c.Regs[c.Swap+1].R)
+		if ka, kb, ok := firstDifferingKinds(a, b); ok && ka != kb {
+			regs := append([]rt.Reg(nil), c.Regs...)
+			regs[c.Swap], regs[c.Swap+1] = regs[c.Swap+1], regs[c.Swap]
+			if o := cmp("M2", regs, c.Reqs); o.Violation != "" {
+				return o
+			}
+			out.NonTrivial = true
+			out.Classes = append(out.Classes, "M2")
+		}
+	}
+	// M3
+	if len(c.Other) > 0 {
+		regs := append(append([]rt.Reg(nil), c.Regs...), c.Other...)
+		if o := cmp("M3", regs, c.Reqs); o.Violation != "" {
+			return o
+		}
+		out.Classes = append(out.Classes, "M3")
+	}
+	// M4
+	var slashed []rt.Req
+	for _, q := range c.Reqs {
+		slashed = append(slashed, rt.Req{M: q.M, P: "//" + q.P})
+	}
+	if o := cmp("M4", c.Regs, slashed); o.Violation != "" {
+		return o
+	}
+	out.Classes = append(out.Classes, "M4")
+	for _, b := range base {
+		if b != "not-found" {
+			out.NonTrivial = true
+		}
+	}
+	return out
+}
+
+func TestMetamorphic(t *testing.T) {
+	evid.Rapid(t, "metamorphic", 2500, 40000, func(t *rapid.T) {
+		pool := gen.SegPool(t, 6, false)
+		regs, _ := gen.RouteSet(t, gen.SetOpts{Route: gen.RouteOpts{SegmentPool: pool}})
+		c := MetaCase{Regs: regs, Reqs: gen.Requests(t, regs, 10), Swap: -1}
+		if len(regs) >= 2 {
+			c.Swap = rapid.IntRange(0, len(regs)-2).Draw(t, "swap")
+		}
+		if rapid.Bool().Draw(t, "extra") {
+			c.Extra = rt.Reg{M: "GET", R: "/zzfresh" + []string{"", "/{any}", "/{rest: **}", "/?opt"}[rapid.IntRange(0, 3).Draw(t, "extrashape")]}
+		}
+		if rapid.Bool().Draw(t, "other") {
+			other, _ := gen.RouteSet(t, gen.SetOpts{Methods: []string{"POST"}, MaxRoutes: 4, Route: gen.RouteOpts{SegmentPool: pool}})
+			c.Other = other
+		}
+		evid.Run(t, "metamorphic", c, func() evid.Outcome { return checkMeta(c) })
+	})
+}
+
 // revalidate drops registrations that the permutation made invalid (validity
 // depends on order only through duplicates/clashes, which are symmetric, so
 // this normally keeps everything).
@@ -343,6 +495,13 @@ func TestReplay(t *testing.T) {
 				panic(err)
 			}
 			return checkCase(c)
+		},
+		"metamorphic": func(raw json.RawMessage) evid.Outcome {
+			var c MetaCase
+			if err := json.Unmarshal(raw, &c); err != nil {
+				panic(err)
+			}
+			return checkMeta(c)
 		},
 	})
 }
